@@ -444,6 +444,11 @@ def owner(unit, f):
         return "C10"
     if unit == "defaults":
         return "C11"
+    if unit == "cors":
+        # which grants a request gets (C11) and that a preflight gets them (C09); panics are C04
+        return "C04" if f.kind in SAFETY_KINDS else ("C11", "C09", "C10")   # C10: the grants must not add a second Vary / hardening header
+    if unit == "header_list":
+        return "C04" if f.kind in SAFETY_KINDS else ("C10", "C05")
     if unit == "request_parse":
         # what the request parser hands on: header values without CR / LF feed the echoed CORS headers and so the response head
         if f.kind in SAFETY_KINDS:
